@@ -977,6 +977,19 @@ def check_prog(case) -> Outcome:
     if c.num_qudits != n:
         out.fail('b_width', f'{c.num_qudits} != {n}\n{src}')
         return out
+    bad = [
+        op for _, op in refsim.grid_ops(c)
+        if not all(math.isfinite(float(p)) for p in op.params)
+    ]
+    if bad:
+        # every value of an in-domain program is finite and below VAL_MAX
+        sig = 'b_unitary|pow_neg_formal' if 'pow_neg_formal' in tags \
+            else 'b_nonfinite_param'
+        out.fail(
+            sig, f'decoded parameter not finite: {bad[0].gate.name} '
+            f'{[float(p) for p in bad[0].params]}\n{src}',
+        )
+        return out
     d = refsim.phase_max_diff(_flat_unitary(c), ref['U'])
     if d > TOL:
         if shadow:
@@ -2203,8 +2216,13 @@ def run_shard(ctx: core.Ctx) -> core.ShardResult:
         (tr_b2x_cases(excl), 60, 1200),
         (tr_x2b_cases(excl), 60, 1200),
     ]
-    for i, (strat, q, t) in enumerate(plan):
-        _run_family(ctx, hctx, res, strat, ctx.n(q, t), i)
+    # two rounds of half the count each, so that every family has run
+    # before a wall-clock ceiling on a busy machine cuts generation short
+    for rnd in range(2):
+        for i, (strat, q, t) in enumerate(plan):
+            _run_family(
+                ctx, hctx, res, strat, max(1, ctx.n(q, t) // 2), i + 20 * rnd,
+            )
     if ctx.tier == 'thorough':
         for j, lib in enumerate(('cirq', 'pytket')):
             if not _import_lib(lib):
